@@ -35,6 +35,7 @@ class Cfg:
         self.netlist_name = True
         self.reorder = True         # permute libraries / definitions after building
         self.downto = True
+        self.late = False           # edits of definitions after they were instanced
         self.share = False          # bias children towards definitions that are already instanced
         self.__dict__.update(kw)
 
@@ -170,6 +171,19 @@ def recipes(draw, cfg=None):
         rec["top_name"] = draw(st.sampled_from(["top", "t0"]))
     else:
         rec["top"] = None
+    if cfg.late and draw(st.integers(0, 2)) != 0:
+        rec["late"] = draw(st.lists(st.fixed_dictionaries({
+            "k": st.sampled_from(["add_port", "create_pin", "add_pin_at", "reorder_ports",
+                                  "reorder_pins"]),
+            "d": st.integers(0, ndefs - 1), "p": st.integers(0, 3), "pos": st.integers(0, 3),
+            "w": st.integers(1, 2), "perm": st.lists(st.integers(0, 5), min_size=1, max_size=4)}),
+            min_size=1, max_size=4))
+        rec["late_conns"] = draw(st.lists(st.tuples(
+            st.integers(0, ndefs - 1),
+            st.one_of(st.tuples(st.just("i"), st.integers(0, 5), st.integers(0, 3), st.integers(0, 3)),
+                      st.tuples(st.just("p"), st.integers(0, 3), st.integers(0, 3))),
+            st.tuples(st.integers(0, 3), st.integers(0, 3))), max_size=8))
+        rec["late_conns"] = [[d, list(e), list(sl)] for d, e, sl in rec["late_conns"]]
     if cfg.reorder:
         rec["lib_perm"] = draw(st.lists(st.integers(0, 5), max_size=nlibs))
         rec["def_perm"] = draw(st.lists(st.integers(0, 5), max_size=3))
@@ -261,6 +275,53 @@ def build(rec, policy=None):
                 W.connect_pin(pin)
             except (ValueError, TypeError, IndexError):
                 continue
+    # late edits: change definitions that already have instances
+    for ed in rec.get("late") or []:
+        D = B.defs[ed.get("d", 0) % len(B.defs)]
+        k = ed.get("k")
+        try:
+            if k == "add_port":
+                P = sdn.Port()
+                _try_name(P, "late_p%d" % len(D.ports))
+                P.direction = sdn.IN
+                P.create_pins(ed.get("w", 1))
+                D.add_port(P, ed.get("pos", 0) % (len(D.ports) + 1))
+            elif D.ports:
+                P = D.ports[ed.get("p", 0) % len(D.ports)]
+                if k == "create_pin":
+                    P.create_pin()
+                elif k == "add_pin_at":
+                    P.create_pin()
+                    pins = list(P.pins)
+                    pins.insert(ed.get("pos", 0) % len(pins), pins.pop())
+                    P.pins = pins
+                elif k == "reorder_ports":
+                    perm = ed.get("perm") or [0]
+                    ps = list(D.ports)
+                    D.ports = [ps[i] for i in sorted(range(len(ps)),
+                                                     key=lambda i: (perm[i % len(perm)], i))]
+                elif k == "reorder_pins":
+                    perm = ed.get("perm") or [0]
+                    ps = list(P.pins)
+                    P.pins = [ps[i] for i in sorted(range(len(ps)),
+                                                    key=lambda i: (perm[i % len(perm)], i))]
+        except ValueError:
+            pass
+    for lc in rec.get("late_conns") or []:
+        try:
+            d, e, (ci, wi) = lc
+            D = B.defs[d % len(B.defs)]
+            if not D.cables:
+                continue
+            C = D.cables[ci % len(D.cables)]
+            if not C.wires:
+                continue
+            pin = _endpoint(D, e)
+            if pin is None or pin.wire is not None:
+                continue
+            C.wires[wi % len(C.wires)].connect_pin(pin)
+        except (ValueError, TypeError, IndexError):
+            continue
     # reorder
     lp = rec.get("lib_perm") or []
     if lp and len(B.libs) > 1:
